@@ -97,8 +97,6 @@ def _test(rep):
         n2 = sint("n_ops_of_the_given_cell")
         st.assume(n2.t >= 1)
         seq2, fs2 = _rot_seq(n2, "cellrot")
-        q2 = z3.Int("q2")
-        st.assume(z3.ForAll([q2], z3.Implies(z3.And(q2 >= 0, q2 < n2.t), z3.Or(_detZ(fs2, q2) == 1, _detZ(fs2, q2) == -1))))
 
         class DS:
             hall_number = HALL
@@ -165,7 +163,8 @@ def replay(ob):
 
     rng = np.random.default_rng(11)
     bad = []
-    groups = [6, 8, 25, 2, 14, 62, 221, 1, 4, 19, 75, 92, 143, 152, 195, 198]
+    # (115-120, 189, 190: achiral groups whose last tabulated operation is proper; 6, 8, 25: whose second one is improper)
+    groups = [115, 189, 6, 8, 25, 2, 14, 62, 221, 1, 4, 19, 75, 92, 143, 152, 195, 198, 119, 190]
     w = ob.witness or {}
     if "sg" in w:
         groups = [w["sg"]] + groups
